@@ -927,6 +927,86 @@ theorem every_section_keeps_inv (s : Spec) (hW : Wf s) (c : Client) (h : Inv s c
     exact ⟨hW, inv_upsert_field s c sid _ h (fun e => rfl)
       (entryInv_setDirs s sid _ d (entryInv_entryD s c h sid) hx)⟩
 
+/-! ### … and so does every RUN of sections -/
+
+/-- a run of critical sections / backend calls, in the order the lock and the database serialise them -/
+def runSections (s : Spec) (c : Client) (secs : List Section) : Spec × Client :=
+  secs.foldl (fun sc x => x.run sc.1 sc.2) (s, c)
+
+/-- every section's payload is valid in the state in which that section runs -/
+def EnabledAlong : Spec → Client → List Section → Prop
+  | _, _, [] => True
+  | s, c, x :: rest => x.enabled s ∧ EnabledAlong (x.run s c).1 (x.run s c).2 rest
+
+theorem runSections_cons (s : Spec) (c : Client) (x : Section) (rest : List Section) :
+    runSections s c (x :: rest) = runSections (x.run s c).1 (x.run s c).2 rest := rfl
+
+/-- **sections_keep_inv**: for EVERY list of sections — any number of threads of one `_CachedStorage`, any other clients, any
+interleaving at lock granularity, any length — if each payload is valid when its section runs, well-formedness and the cache
+invariant hold at the end (and, `sections_keep_inv_every_prefix`, after every step on the way). -/
+theorem sections_keep_inv : ∀ (secs : List Section) (s : Spec) (c : Client), Wf s → Inv s c → EnabledAlong s c secs →
+    Wf (runSections s c secs).1 ∧ Inv (runSections s c secs).1 (runSections s c secs).2 := by
+  intro secs
+  induction secs with
+  | nil => intro s c hW h _; exact ⟨hW, h⟩
+  | cons x rest ih =>
+    intro s c hW h hen
+    obtain ⟨h1, h2⟩ := every_section_keeps_inv s hW c h x hen.1
+    rw [runSections_cons]
+    exact ih _ _ h1 h2 hen.2
+
+theorem enabledAlong_take : ∀ (secs : List Section) (k : Nat) (s : Spec) (c : Client), EnabledAlong s c secs →
+    EnabledAlong s c (secs.take k) := by
+  intro secs
+  induction secs with
+  | nil => intro k s c h; simpa using h
+  | cons x rest ih =>
+    intro k s c h
+    cases k with
+    | zero => trivial
+    | succ k => exact ⟨h.1, ih k _ _ h.2⟩
+
+theorem sections_keep_inv_every_prefix (secs : List Section) (s : Spec) (c : Client) (hW : Wf s) (h : Inv s c)
+    (hen : EnabledAlong s c secs) (k : Nat) :
+    Wf (runSections s c (secs.take k)).1 ∧ Inv (runSections s c (secs.take k)).1 (runSections s c (secs.take k)).2 :=
+  sections_keep_inv (secs.take k) s c hW h (enabledAlong_take secs k s c hen)
+
+/-- only backend calls move the backend -/
+theorem section_run_spec (s : Spec) (c : Client) (x : Section) :
+    (x.run s c).1 = s ∨ ∃ op, (x.run s c).1 = (step s op).1 := by
+  cases x with
+  | backend op => exact Or.inr ⟨op, rfl⟩
+  | _ => exact Or.inl rfl
+
+/-- payloads that were all valid BEFORE the run (read from the backend earlier) stay valid until their section runs
+(`payload_stable`), so the run keeps the invariant: the records the threads carry may be out of date, never harmful -/
+theorem sections_keep_inv_of_read : ∀ (secs : List Section) (s : Spec) (c : Client), Wf s → Inv s c →
+    (∀ x ∈ secs, x.enabled s) →
+    Wf (runSections s c secs).1 ∧ Inv (runSections s c secs).1 (runSections s c secs).2 := by
+  intro secs s c hW h hall
+  refine sections_keep_inv secs s c hW h ?_
+  clear hW h
+  induction secs generalizing s c with
+  | nil => trivial
+  | cons x rest ih =>
+    refine ⟨hall x (by simp), ih _ _ ?_⟩
+    intro y hy
+    have hys := hall y (List.mem_cons_of_mem _ hy)
+    rcases section_run_spec s c x with e | ⟨op, e⟩
+    · rw [e]; exact hys
+    · rw [e]; exact payload_stable s op y hys
+
+/-- a five-step run: two backend writes of anybody, two syncs, the locked part of `delete_study` -/
+def demoSecs : List Section :=
+  [.backend (.createStudy "s" [1]), .sync 0, .backend (.createTrial 0 none false), .sync 0, .dropStudy 0]
+
+theorem demoSecs_enabled (s : Spec) (c : Client) : EnabledAlong s c demoSecs :=
+  ⟨trivial, trivial, trivial, trivial, trivial, trivial⟩
+
+/-- non-vacuity: from the empty database and a fresh client the hypotheses of `sections_keep_inv` hold for `demoSecs` -/
+example : Inv (runSections Storage.init Client.init demoSecs).1 (runSections Storage.init Client.init demoSecs).2 :=
+  (sections_keep_inv demoSecs Storage.init Client.init wf_init (inv_init _) (demoSecs_enabled _ _)).2
+
 /-! ## sensitivity: the two ways the property fails -/
 
 def wTmpl : Template :=
